@@ -786,6 +786,11 @@ func c18ListenerTimeout(c *Check, P string, listen *ssa.Function) {
 	}
 	wt := wts[0]
 	c.Report(GuardedBy(listen, wt, set), P+".O5", "TIMEOUT-CONTEXT", listen, wt.Pos(), "WithTimeout", "the timeout context is derived on the edge where a timeout is configured")
+	// … and on every path of that edge: the unbounded alternative is taken only when no timeout is configured
+	unset, _ := NilEdges(listen, isTO)
+	for _, wc := range CallsTo(listen, nWithCancel) {
+		c.Report(GuardedBy(listen, wc, unset), P+".O5", "TIMEOUT-ALWAYS-WHEN-CONFIGURED", listen, wc.Pos(), "WithCancel (no timeout)", "the listener runs without a deadline only when ListenForReplyTimeout is nil (whatever its value, a configured timeout bounds the listener)")
+	}
 	// on that edge, the context handed to the subscriber and captured by the listener is the timeout context
 	subs := CallsTo(listen, nSubscribe)
 	for _, s := range subs {
